@@ -516,7 +516,8 @@ func (r *messageSetReader) readHeader() (err error) {
 }
 
 func (r *messageSetReader) readNewBytes(len int) (res []byte, err error) {
-	res, r.remain, err = readNewBytes(r.reader, r.remain, len)
+	// a header value: null (negative length) is nil, empty is empty
+	res, r.remain, err = readMessageBytes(r.reader, r.remain, len)
 	return
 }
 
